@@ -79,6 +79,8 @@ class Check:
         self.drift = 0
         self.drift_samples = []
         self.timeouts = 0
+        self.judge_failures = []   # judge invocations that had to be given up
+        self.unjudgeable = []      # replay files of recorded executions the judge could not evaluate at all
         self.mc_runs = []          # dicts describing every MC run
         self.judge_runs = []
         self.categories = {}
@@ -157,9 +159,34 @@ class Check:
             cfg = "CONSTANT Active = {%s}\n%sINIT Init\nNEXT Next\n" % (
                 ", ".join('"%s"' % a for a in sorted(active)), extra_consts)
             r = tlc.run(module, cfg, env={"TRACE_FILE": tf}, timeout=timeout or max(1800, self.time_left() + 1800))
-            if not r.ok:
-                tail = "\n".join(r.stdout.split("\n")[-30:])
-                raise Machinery("judge %s did not complete (rc=%s)\n%s" % (module, r.rc, tail))
+            attempts = 0
+            while not r.ok:
+                # A judge is meant to be total.  If TLC nevertheless fails to EVALUATE one recorded execution (a shape no clause anticipated), that trace is
+                # set aside (kept as a replay file, reported at the end as a machinery failure) and the others are still judged, so that one
+                # unevaluable trace cannot hide the verdicts on the thousands around it.
+                import re
+                err = r.stdout[r.stdout.find("Error:"):] if "Error:" in r.stdout else ""
+                m = re.search(r"/\\ tid = (\d+)", err)
+                attempts += 1
+                if not m or attempts > 25 or int(m.group(1)) > len(part):
+                    # not an isolated trace: this judge invocation is given up, the check goes on with its other judges and ends as a machinery
+                    # failure (exit 2) unless a violation is established elsewhere (exit 1)
+                    tail = "\n".join(r.stdout.split("\n")[-30:])
+                    self.judge_failures.append("judge %s (%s) did not complete (rc=%s)\n%s" % (module, what or "", r.rc, tail))
+                    part = []
+                    break
+                bad = part.pop(int(m.group(1)) - 1)
+                path = self.write_replay({"kind": "unjudgeable", "property": self.pid, "module": module, "active": sorted(active), "trace": bad,
+                                          "tlc_error": err[:1500]})
+                self.unjudgeable.append(path)
+                if not part:
+                    break
+                with open(tf, "w") as f:
+                    json.dump(part, f)
+                r = tlc.run(module, cfg, env={"TRACE_FILE": tf}, timeout=timeout or max(1800, self.time_left() + 1800))
+            if not part:
+                os.remove(tf)
+                continue
             seen = {}
             for v in r.verdicts:
                 if v["tid"] in seen:
@@ -268,6 +295,7 @@ class Check:
             "categories": self.categories,
             "drift": self.drift,
             "timeouts": self.timeouts,
+            "unjudgeable_traces": len(self.unjudgeable),
             "max_stimulus_s": round(_MAXDT.value, 2),
             "stimulus_timeout_s": HANG_T,
             "known_finding_hits": {self.known[i]["what"]: n for i, n in self.known_hits.items()},
@@ -281,6 +309,14 @@ class Check:
         print("%s tier=%s seed=%d: %d traces (%d events) judged by TLC, %d states, %d violations, %d known-finding hits, %.0fs" %
               (self.pid, self.tier, self.seed, self.traces, self.events, self.states, len(self.violations),
                sum(self.known_hits.values()), wall), flush=True)
+        for msg in self.judge_failures:
+            print("MACHINERY-FAILURE property=%s %s" % (self.pid, msg), flush=True)
+        if self.judge_failures and not self.unjudgeable:
+            return 1 if self.violations else 2
+        if self.unjudgeable:
+            print("MACHINERY-FAILURE property=%s %d recorded execution(s) could not be evaluated by the judge (kept as %s ...); verdicts on the others stand"
+                  % (self.pid, len(self.unjudgeable), self.unjudgeable[0]), flush=True)
+            return 1 if self.violations else 2
         return 1 if self.violations else 0
 
 
